@@ -466,8 +466,11 @@ def campaign(run):
     histories, all run once with extended dumps; both properties' oracles; cached for the other check"""
     path = os.path.join(lib.WORK, 'dom13_campaign_%s_%s_%s_%s.json' % (run.tier, run.seed, lib.repo_tree_hash(), source_hash()))
     if os.path.exists(path) and time.time() - os.path.getmtime(path) < 6 * 3600 and not os.environ.get('VERIF_DOM_NOCACHE'):
-        s = json.load(open(path)); s['cached'] = True
-        return s
+        try:
+            s = json.load(open(path)); s['cached'] = True
+            return s
+        except ValueError:
+            pass
     rng = random.Random(run.seed)
     thorough = run.tier == 'thorough'
     s = {'cases': 0, 'ops': 0, 'c13': [], 'c15': [], 'crashes': [], 'hist': {}, 'nontrivial': set(), 'n13': {}, 'n15': {},
@@ -506,8 +509,10 @@ def campaign(run):
     s['nontrivial'] = len(s['nontrivial'])
     del s['_seen13'], s['_seen15']
     os.makedirs(lib.WORK, exist_ok=True)
-    with open(path, 'w') as f:
+    tmp = '%s.%d.tmp' % (path, os.getpid())       # atomic: another check may read the cache while it is written
+    with open(tmp, 'w') as f:
         json.dump(s, f)
+    os.replace(tmp, path)
     s['cached'] = False
     return s
 
